@@ -26,7 +26,7 @@ checks = [
 import glob, importlib, sys
 sys.path.insert(0, os.path.join(V, "tools"))
 # plugins reviewed and accepted (others may exist on disk while they are being built)
-ACCEPTED = ["seqapi_pipe", "wire_pipe", "c18_pipe", "snapshot_pipe", "sticky_pipe", "ffi_pipe", "idsets_pipe", "quote_pipe", "undo_pipe"]
+ACCEPTED = ["seqapi_pipe", "wire_pipe", "c18_pipe", "snapshot_pipe", "sticky_pipe", "ffi_pipe", "idsets_pipe", "quote_pipe", "undo_pipe", "events_pipe"]
 engines_extra = []
 for f in sorted(glob.glob(os.path.join(V, "tools", "*_pipe.py"))):
     name = os.path.basename(f)[:-3]
